@@ -13,8 +13,9 @@ R15.c  the type guard tests the enclosing class and its failing branch
 from __future__ import annotations
 
 import ast
+import re
 
-from ..repo import AnalysisError, ClassInfo, FuncInfo, body_of, own_nodes
+from ..repo import AnalysisError, ClassInfo, FuncInfo, body_of, dotted, own_nodes
 from .roles import machine_id_attr, schedule_attr
 
 MANIFEST = {
@@ -126,6 +127,7 @@ class EqShape:
         # harmless as an extra conjunct, but they do not cover the field
         self.weak: dict[str, str] = {}
         self.len_guard: set[str] = set()
+        self.inner_len_guard: set[str] = set()
         # `if self.f is other.f: return True` shortcuts: (node, field, fields compared before it)
         self.early_true: list[tuple] = []
 
@@ -233,6 +235,13 @@ def analyse_eq(ctx, fi: FuncInfo) -> EqShape:
         if isinstance(node, ast.Compare) and len(node.ops) == 1:
             op = node.ops[0]
             l, r = node.left, node.comparators[0]
+            # `self._key() == other._key()` with a one-expression private method of the class: spelt out on both sides
+            kl, kr = key_call(l), key_call(r)
+            if (
+                isinstance(kl, ast.Tuple) and isinstance(kr, ast.Tuple) and len(kl.elts) == len(kr.elts)
+                and all(_side(x, self_names, other_names) for x in kl.elts + kr.elts)
+            ):
+                l, r = kl, kr  # plain fields only; anything else is left to the projection rule below
             want = ast.Eq if positive else ast.NotEq
             # tuple comparison: (self.a, self.b) == (o.a, o.b)
             if isinstance(l, ast.Tuple) and isinstance(r, ast.Tuple) and len(l.elts) == len(r.elts):
@@ -265,6 +274,23 @@ def analyse_eq(ctx, fi: FuncInfo) -> EqShape:
             nan_compare(node)
             pair(node, node.args[0], node.args[1])
             return
+        # all(map(operator.eq, A, B))  is  all(a == b for a, b in zip(A, B))
+        if (
+            positive and isinstance(node, ast.Call) and isinstance(node.func, ast.Name) and node.func.id == "all"
+            and len(node.args) == 1 and isinstance(node.args[0], ast.Call) and ast.unparse(node.args[0].func) == "map"
+            and len(node.args[0].args) == 3 and ast.unparse(node.args[0].args[0]) in ("operator.eq", "eq")
+        ):
+            m_ = node.args[0]
+            ge = ast.GeneratorExp(
+                elt=ast.Compare(left=ast.Name("_a", ast.Load()), ops=[ast.Eq()], comparators=[ast.Name("_b", ast.Load())]),
+                generators=[ast.comprehension(
+                    target=ast.Tuple([ast.Name("_a", ast.Store()), ast.Name("_b", ast.Store())], ast.Store()),
+                    iter=ast.Call(func=ast.Name("zip", ast.Load()), args=[m_.args[1], m_.args[2]], keywords=[]), ifs=[], is_async=0)],
+            )
+            new_node = ast.Call(func=node.func, args=[ge], keywords=[])
+            ast.copy_location(new_node, node)
+            ast.fix_missing_locations(new_node)
+            node = new_node
         # all(getattr(self, s) == getattr(o, s) for s in self.__slots__)
         if (
             positive
@@ -390,7 +416,57 @@ def analyse_eq(ctx, fi: FuncInfo) -> EqShape:
         sh.weak[a[2]] = a[0]
         if a[0] == "len(@)":
             sh.len_guard.add(a[2])
+        if a[0].replace(" ", "") in ("list(map(len,@))", "tuple(map(len,@))") or re.fullmatch(r"[\[(]len\((\w+)\)for\1in@[\])]", a[0].replace(" ", "")):
+            # the lengths of all inner lists agree: the flattened streams have equal length and the same boundaries
+            sh.len_guard.add(a[2])
+            sh.inner_len_guard.add(a[2])
         return True
+
+    def key_call(e):
+        if not (
+            isinstance(e, ast.Call) and not e.args and not e.keywords and isinstance(e.func, ast.Attribute)
+            and isinstance(e.func.value, ast.Name) and e.func.value.id in self_names | other_names and ci is not None
+        ):
+            return e
+        m = ctx.repo.method(ci, e.func.attr)
+        if m is None or isinstance(m.node, ast.Lambda) or not m.params or m.decorators:
+            return e
+        body = [s_ for s_ in m.node.body if not (isinstance(s_, ast.Expr) and isinstance(s_.value, ast.Constant))]
+        if len(body) != 1 or not isinstance(body[0], ast.Return) or body[0].value is None:
+            return e
+        import copy as _copy
+
+        who = e.func.value.id
+
+        class _R(ast.NodeTransformer):
+            def visit_Name(self, n):
+                return ast.copy_location(ast.Name(who, n.ctx), n) if n.id == m.params[0] else n
+
+        return _R().visit(_copy.deepcopy(body[0].value))
+
+    def flat_stream(e, _d=0):
+        """(<who>.<field>, flattened?) for `<who>.<field>`, `chain.from_iterable(<who>.<field>)`,
+        `chain(*<who>.<field>)` or a one-expression method of the class returning one of these."""
+        d = dotted(e.func) if isinstance(e, ast.Call) else None
+        if d in ("itertools.chain.from_iterable", "chain.from_iterable") and len(e.args) == 1:
+            return e.args[0], True
+        if d in ("itertools.chain", "chain") and len(e.args) == 1 and isinstance(e.args[0], ast.Starred):
+            return e.args[0].value, True
+        if (
+            isinstance(e, ast.Call) and not e.args and not e.keywords and isinstance(e.func, ast.Attribute)
+            and isinstance(e.func.value, ast.Name) and e.func.value.id in self_names | other_names and _d < 2
+        ):
+            m = ctx.repo.method(ci, e.func.attr)
+            body = [s_ for s_ in (m.node.body if m is not None and not isinstance(m.node, ast.Lambda) else []) if not (isinstance(s_, ast.Expr) and isinstance(s_.value, ast.Constant))]
+            if m is not None and len(body) == 1 and isinstance(body[0], ast.Return) and body[0].value is not None and m.params:
+                import copy as _copy
+
+                class _R(ast.NodeTransformer):
+                    def visit_Name(self, n):
+                        return ast.copy_location(ast.Name(e.func.value.id, n.ctx), n) if n.id == m.params[0] else n
+
+                return flat_stream(_R().visit(_copy.deepcopy(body[0].value)), _d + 1)
+        return e, False
 
     def zipped_all(node, g):
         """all(a == b for A, B in zip(self.f, other.f) [for a, b in zip(A, B)])"""
@@ -409,11 +485,14 @@ def analyse_eq(ctx, fi: FuncInfo) -> EqShape:
                 return False
             strict = any(k.arg == "strict" and isinstance(k.value, ast.Constant) and k.value.value is True for k in it.keywords)
             if depth == 0:
-                sa, sb = _side(it.args[0], self_names, other_names), _side(it.args[1], self_names, other_names)
-                if not (sa and sb) or {sa[0], sb[0]} != {"self", "other"} or sa[1] != sb[1]:
+                x0, f0 = flat_stream(it.args[0])
+                x1, f1 = flat_stream(it.args[1])
+                sa, sb = _side(x0, self_names, other_names), _side(x1, self_names, other_names)
+                if not (sa and sb) or {sa[0], sb[0]} != {"self", "other"} or sa[1] != sb[1] or f0 != f1:
                     return False
                 field = sa[1]
-                guarded = strict or field in sh.len_guard
+                # a length guard on the list of lists says nothing about the length of the flattened streams
+                guarded = strict or (field in sh.len_guard and not f0) or (f0 and field in sh.inner_len_guard)
             else:
                 if [ast.unparse(x) for x in it.args] != prev:
                     return False
